@@ -745,8 +745,7 @@ func TestC12_RetripThenHeal(t *testing.T) {
 				d.Advance(cbh.Step(2))
 				one(502)
 				if d.State() != "tripped" {
-					vstat.Count("retrip_not_reached", 1)
-					return
+					t.Fatalf("recovery #%d: the re-admitted probe failed (every response recorded since the trip is a failure, %s holds) but the breaker is %s instead of tripped again\n%s", k+1, expr, d.State(), d.History())
 				}
 			}
 		}
@@ -773,5 +772,39 @@ func TestC12_RetripThenHeal(t *testing.T) {
 			}
 		}
 		vstat.Case(fmt.Sprintf("heal|%v|%v|%s|%d|%d", F, R, expr, retrips, n), passed > 0, []string{"retrip-then-heal"}, map[string]any{"fallback": F.String(), "recovery": R.String(), "expr": expr, "failed_recoveries": retrips})
+	})
+}
+
+// TestC12_NoRecoveryPeriod: a recovery duration of zero (or less) is accepted by the API: there
+// is no ramp, the first request after the (empty) recovery period finds the breaker in standby.
+func TestC12_NoRecoveryPeriod(t *testing.T) {
+	rapid.Check(t, func(t *rapid.T) {
+		F := rapid.SampledFrom([]time.Duration{100 * time.Millisecond, time.Second, 10 * time.Second}).Draw(t, "fallback")
+		R := rapid.SampledFrom([]time.Duration{0, -time.Second, -time.Nanosecond}).Draw(t, "recovery")
+		d := cbh.New(t, "NetworkErrorRatio() > 0.5", F, R, time.Millisecond, 0)
+		defer d.Close()
+		one := func(status int) bool {
+			if !d.Start() {
+				return false
+			}
+			d.Finish(len(d.InFlight)-1, status)
+			return true
+		}
+		for i := 0; i < 10 && d.State() != "tripped"; i++ {
+			one(502)
+			d.Advance(cbh.Step(2))
+		}
+		if d.State() != "tripped" {
+			t.Fatalf("INFRA: could not trip the breaker")
+		}
+		d.Advance(cbh.Step(int64(F/time.Millisecond) + 1))
+		one(200) // ends the tripped state; with no recovery period it may or may not be served itself
+		d.Advance(cbh.Step(rapid.Int64Range(1, 500).Draw(t, "later")))
+		for i := 0; i < 3; i++ {
+			if !one(200) || d.State() != "standby" {
+				t.Fatalf("recovery duration %v: request %d after the fallback period and its (empty) recovery: state %s; want served and standby\n%s", R, i+2, d.State(), d.History())
+			}
+		}
+		vstat.Case(fmt.Sprintf("norec|%v|%v", F, R), true, []string{"recovery-duration<=0"}, map[string]any{"fallback": F.String(), "recovery": R.String()})
 	})
 }
